@@ -311,7 +311,9 @@ pub fn gen_deriv(rng: &mut Rng, p: &Pools) -> Deriv {
     let urls = ["https://example.org/foo-1.0.whl", "file:///tmp/x.tar.gz", "git+https://github.com/a/b.git@main#egg=b", "https://x.org/a;b", "https://x.org/a#frag",
         "https://x.org/${VP_HOME_DIR}/a", "https://x.org/a%20b", "http://localhost:8080/p?q=1&r=[2]", "https://x.org/${VP_UNSET}/a", "https://user:pw@x.org/a@b",
         // the parsed URL ends in `;` / `#` although the text does not (F20)
-        "https://x.org/a;${VP_EMPTY}", "https://x.org/a#${VP_EMPTY}", "https://x.org/a;\u{1}", "https://x.org/b#\u{1f}", "https://x.org/${VP_TOKEN_1}"];
+        "https://x.org/a;${VP_EMPTY}", "https://x.org/a#${VP_EMPTY}", "https://x.org/a;\u{1}", "https://x.org/b#\u{1f}", "https://x.org/${VP_TOKEN_1}",
+        // percent signs in the path and the fragment of file URLs (decoded by the extension feature)
+        "file:///tmp/p#x%2541", "file:///tmp/a%2541/b#c%25d", "file:///tmp/p%20q#egg=a%20b", "https://x.org/p#x%2541"];
     let name = rng.pick(&names).to_string();
     let ex = if rng.chance(1, 2) { None } else { let n = rng.below(3); Some((0..n).map(|_| rng.pick(&extras).to_string()).collect()) };
     let (sp, url) = match rng.below(4) {
@@ -633,7 +635,9 @@ fn round_trip(out: &mut Out, rc: &mut ReqCases, text: &str, vars: &[(String, Str
             if !same(&r2) {
                 out.oracle_fail("C08", "to_string() parses back to a different requirement", input.clone());
             }
-            if !is_false && r2.to_string() != shown {
+            // inside the carve-out the re-parsed marker is only equivalent (a deprecated spelling is a distinct
+            // variable before rendering and the modern one after): its text is not required to be the same
+            if !is_false && !deprecated && r2.to_string() != shown {
                 out.oracle_fail("C08", "rendering the re-parsed requirement does not reproduce the text", input.clone());
             }
         }
